@@ -84,8 +84,53 @@ func (x *Exec) rangeOther(s *ast.RangeStmt, st *State, coll Val, lc *LoopContrac
 	if m, ok := coll.(VStrMap); ok {
 		return x.rangeStrMap(s, st, m, lc, ord)
 	}
+	if m, ok := coll.(VMapRef); ok {
+		return x.rangeHeapMap(s, st, m, lc, ord)
+	}
 	unsupp(s.Pos(), x.fx.prog.fset, fmt.Sprintf("range over %T is not modelled", coll))
 	return nil
+}
+
+// rangeHeapMap: "for k, v := range m" over a map object of the heap: an unknown number of
+// iterations, each with some key present in the map when the iteration starts and its value, in
+// no particular order; that every entry is visited is not modelled. Termination is assumed.
+func (x *Exec) rangeHeapMap(s *ast.RangeStmt, st *State, m VMapRef, lc *LoopContract, ord int) *Flow {
+	fx := x.fx
+	fx.trusted["range over a map visits entries of the map (each key present, value = m[key]) in an unspecified order and terminates (assumed)"] = true
+	ls := &loopSpec{node: s, ord: ord, lc: lc, bodyPos: s.Body.Lbrace + 1, body: s.Body.List, modNodes: []ast.Node{s.Body}}
+	ls.autoDec = func(h *State) Term { return "1" }
+	ls.guard = func(h *State) Term { return fx.declare(sortBool, "more") }
+	mt, _ := x.info.TypeOf(s.X).Underlying().(*types.Map)
+	ls.pre = func(b *State) {
+		if mt == nil {
+			unsupp(s.Pos(), fx.prog.fset, "range over a map of unknown type")
+		}
+		k := fx.fresh(mt.Key(), "key")
+		for _, rt := range refTermsOf(k) {
+			fx.assume(b.pc, sLe(rt, fx.allocTerm(b)))
+		}
+		e := x.ev(b)
+		v, has := e.heapMapGet(m, k, s)
+		fx.assume(b.pc, has)
+		if _, opaque := v.(VOpaque); opaque {
+			v = fx.fresh(mt.Elem(), "val")
+		}
+		if id, ok := s.Key.(*ast.Ident); ok && id.Name != "_" {
+			obj := x.info.Defs[id]
+			if obj == nil {
+				obj = x.info.Uses[id]
+			}
+			b.env[obj] = k
+		}
+		if id, ok := s.Value.(*ast.Ident); ok && id.Name != "_" {
+			obj := x.info.Defs[id]
+			if obj == nil {
+				obj = x.info.Uses[id]
+			}
+			b.env[obj] = v
+		}
+	}
+	return x.loop(ls, st)
 }
 
 // rangeStrMap: "for k, v := range m" over a map[string]string parameter: an unknown number of
